@@ -1,12 +1,41 @@
+// roverif is the Go side of the /verif machinery: replayers for TLC-generated cases (direction A) and
+// drivers that record traces of the real library for TLC to validate (direction B).
 package main
 
 import (
 	"fmt"
-
-	"github.com/samber/ro"
+	"os"
 )
 
+type cmd struct {
+	name string
+	help string
+	run  func(args []string) int
+}
+
+var cmds []cmd
+
+func register(name, help string, run func(args []string) int) {
+	cmds = append(cmds, cmd{name, help, run})
+}
+
 func main() {
-	v, err := ro.Collect(ro.Pipe1(ro.Just(1, 2, 3), ro.Map(func(x int) int { return x + 1 })))
-	fmt.Println(v, err)
+	if len(os.Args) < 2 {
+		usage()
+		os.Exit(2)
+	}
+	for _, c := range cmds {
+		if c.name == os.Args[1] {
+			os.Exit(c.run(os.Args[2:]))
+		}
+	}
+	usage()
+	os.Exit(2)
+}
+
+func usage() {
+	fmt.Fprintln(os.Stderr, "usage: roverif <command> [flags]")
+	for _, c := range cmds {
+		fmt.Fprintf(os.Stderr, "  %-18s %s\n", c.name, c.help)
+	}
 }
